@@ -8,6 +8,7 @@ import numpy as np
 import z3
 
 from symnp.core import SymReal
+from symnp.proxy import SymArray
 
 from skchange.anomaly_scores.base import BaseLocalAnomalyScore, BaseSaving
 from skchange.change_scores.base import BaseChangeScore
@@ -36,8 +37,8 @@ class _TableMixin:
                 else:
                     out[i, j] = _lookup(self.values, name, self.default)
         if self.values is not None and all(isinstance(v, (int, float)) for v in out.ravel()):
-            out = out.astype(float)
-        return out
+            return out.astype(float)
+        return out.view(SymArray)
 
     def _table_fit(self, X):
         X = np.asarray(X)
@@ -195,4 +196,4 @@ class UFCost(BaseCost):
             rows = self.X_[int(s):int(e)]
             for j in range(p):
                 out[i, j] = SymReal(self.value(rows, j))
-        return out
+        return out.view(SymArray)
